@@ -184,7 +184,17 @@ def check_case(ctx, r, variant=None):
 
 def _check_case(ctx, r, variant):
     tag = gen.build_root(r)
-    if variant is None:
+    if variant == "document" or (variant is None and ctx.rng.random() < 0.08):
+        # the tree between two text leaves as the content of a document: it sits, with its neighbours, in the document's <body>
+        lead, tail = gen.T("lead & <text>"), {"k": "num", "v": 7}
+        out = ht.HTMLDocument(gen.build(lead), tag, gen.build(tail)).render()["html"]
+        if not out.startswith("<!DOCTYPE html>\n"):
+            ctx.violation("root-structure", "document output does not start with the doctype", {"recipe": r, "output": out[:300]})
+            return
+        out, eol, how = out[len("<!DOCTYPE html>\n"):], "\n", "HTMLDocument(text, tree, number).render()"
+        r = gen.TAG("html", gen.TAG("head", gen.TAG("meta", attrs=[["charset", {"t": "str", "s": "utf-8"}]])), gen.TAG("body", lead, r, tail))
+        ctx.count("document_variants")
+    elif variant is None:
         out, eol, how = render_variants(ctx.rng, tag)
     else:
         indent, eol = variant
@@ -356,8 +366,11 @@ def _run(ctx):
         ctx.case(wide)
         ctx.count("degenerate_shapes", 2)
         # sizes beyond what ordinary documents reach: many siblings, many attributes, very long text and attribute values
-        wider = gen.TAG("div", *[(gen.TAG("span", gen.T("s%d&" % k), ws=False) if k % 3 else gen.T("t%d<" % k)) for k in range(2500)], ws=True, how="extend")
+        wider = gen.TAG("div", *[(gen.TAG("span", gen.T("s%d&" % k), ws=False) if k % 5 == 4 else gen.T("t%d<" % k)) for k in range(4300)], ws=True, how="extend")
         check_case(ctx, wider, (0, "\n"))
+        check_case(ctx, gen.TAG("article", gen.TAG("section", *wider["c"][:2600], ws=True), ws=False), (1, "\r\n"))
+        for nm in ("body", "html", "head", "div"):
+            check_case(ctx, gen.TAG(nm, gen.T("in <%s>" % nm), gen.TAG("p", gen.T("x")), via_fn=False), "document")
         many_attrs = gen.TAG("x-many", gen.T("k"), ws=False, via_fn=False,
                              attrs=[["data-a%d" % k, {"t": "str", "s": "v%d\"&" % k} if k % 4 else {"t": "num", "v": k}] for k in range(260)])
         check_case(ctx, many_attrs, (0, "\n"))
